@@ -214,6 +214,10 @@ func c15PJCheck(ctx *vfCtx, c c15PJCase) {
 		tmplTree = tmplTree.with("room_id", jstr(c15PlainRoomID(version, "elsewhere")))
 	case "redacts":
 		tmplTree = tmplTree.with("redacts", jstr(c15FakeEventID(version, "victim")))
+	case "membership-leave", "membership-ban", "membership-invite", "membership-knock":
+		// a template whose content asks for something other than a join: what is built, signed and
+		// returned is a join all the same (the rest of the template's content is the resident's to choose)
+		tmplTree = tmplTree.with("content", jobj("membership", jstr(strings.TrimPrefix(c.TemplateOdd, "membership-")), "displayname", jstr("from the template")))
 	}
 	// the response lists
 	var auth, state []jv
@@ -479,7 +483,7 @@ func c15PJGen(t *rapid.T) c15PJCase {
 	c.Version = rapid.SampledFrom(c15Versions).Draw(t, "version")
 	c.JoinRule = rapid.SampledFrom([]string{"public", "public", "invited"}).Draw(t, "joinRule")
 	c.Echo = rapid.SampledFrom([]string{"", "echo", "echo", "other", "garbage"}).Draw(t, "echo")
-	c.TemplateOdd = rapid.SampledFrom([]string{"", "", "", "type", "room", "redacts", "few-auth"}).Draw(t, "templateOdd")
+	c.TemplateOdd = rapid.SampledFrom([]string{"", "", "", "type", "room", "redacts", "few-auth", "membership-leave", "membership-ban", "membership-invite", "membership-knock"}).Draw(t, "templateOdd")
 	c.Unsigned = rapid.Bool().Draw(t, "unsigned")
 	c.MembersOmitted = rapid.Bool().Draw(t, "membersOmitted")
 	if (c.Version == "1" || c.Version == "4") && rapid.IntRange(0, 3).Draw(t, "noVersion") == 0 {
